@@ -25,6 +25,17 @@ def badList : Sexp → Option (List Str)
 def mkEnv (bad : List Str) : Env :=
   { isLetter := isLetter, rxOK := fun s => !bad.contains s, pf := parseFloat }
 
+/-- the float-text oracle of an op line: `((BITS xTEXT) …)` — what the implementation prints for the float with these bits -/
+def floatTable : Sexp → Option (List (Nat × Str))
+  | .list xs => xs.mapM fun x =>
+      match x with
+      | .list [b, t] => do let n ← b.nat?; let s ← t.str?; pure (n, s.toList)
+      | _ => none
+  | _ => none
+
+def mkEnvF (bad : List Str) (fl : List (Nat × Str)) : Env :=
+  { mkEnv bad with ff := fun b => ((fl.find? fun p => p.1 == b).map (·.2)).getD [] }
+
 /-- the name of a Deferred call is compared only when it is a plain word (see harness/syn Enc) -/
 def showName : Option Str → String
   | none => "?"
